@@ -852,9 +852,21 @@ func checkHooks(ctx context.Context, st storage.Storage, r Req, log []decision, 
 		if err != nil {
 			return ""
 		}
+		// the upload the request named (a program may have created further uploads on the same key)
+		asked := ""
+		for _, cl := range calls {
+			if cl.Method != "ListParts" {
+				continue
+			}
+			for _, a := range cl.Args {
+				if strings.HasPrefix(a, "uploadId=") {
+					asked = strings.Trim(strings.TrimPrefix(a, "uploadId="), "\"")
+				}
+			}
+		}
 		found := false
 		for _, u := range ups.Uploads {
-			if u.Key.String() == "mp" {
+			if u.Key.String() == "mp" && u.UploadId.String() == asked {
 				uploadID, found = u.UploadId, true
 			}
 		}
